@@ -273,7 +273,8 @@ impl TypedReprRef<'_> {
             },
             RefLarge(words) => {
                 let mut buffers = Vec::<Buffer>::new();
-                let word_per_chunk = math::ceil_div(chunk_bits, WORD_BITS_USIZE);
+                // a chunk never holds more words than the number itself
+                let word_per_chunk = math::ceil_div(chunk_bits, WORD_BITS_USIZE).min(words.len());
                 buffers.resize_with(chunk_count, || {
                     // allocate an extra word for shifting
                     let mut buf: Buffer = Buffer::allocate(word_per_chunk + 1);
